@@ -32,6 +32,42 @@ def text(name):
                     out.append(l[:12] + ' OXT' + l[16:17] + last[17:27] + l[27:76] + ' O' + l[78:])
                     done = True
             _TXT[name] = '\n'.join(out) + '\nTER   \n'
+        elif '/' in name:
+            # 'name/57:CZ-NH1-NH2-NE': the whole structure turned (and put back on the 0.001 grid) so that the plane through the
+            # first three listed atoms of residue 57 is z = const; the listed atoms then get exactly the same z: a planar group
+            # lying exactly in a coordinate plane (the normals used as rotation axes have exactly zero components)
+            base, spec = name.split('/', 1)
+            resnum, names = spec.split(':')
+            names = names.split('-')
+            recs = [l for l in text(base).split('\n') if l]
+            pos = {}
+            for l in recs:
+                if l[:6] in ('ATOM  ', 'HETATM') and int(l[22:26]) == int(resnum) and l[12:16].strip() in names:
+                    pos[l[12:16].strip()] = [float(l[30:38]), float(l[38:46]), float(l[46:54])]
+            a, b, c = [pos[n] for n in names[:3]]
+            u = [b[i] - a[i] for i in range(3)]
+            v = [c[i] - a[i] for i in range(3)]
+            n = [u[1] * v[2] - u[2] * v[1], u[2] * v[0] - u[0] * v[2], u[0] * v[1] - u[1] * v[0]]
+            ln = sum(x * x for x in n) ** 0.5
+            n = [x / ln for x in n]
+            # orthonormal frame (e1, e2, n): new coordinates = components along e1, e2, n
+            h = [1.0, 0.0, 0.0] if abs(n[0]) < 0.9 else [0.0, 1.0, 0.0]
+            d = sum(h[i] * n[i] for i in range(3))
+            e1 = [h[i] - d * n[i] for i in range(3)]
+            l1 = sum(x * x for x in e1) ** 0.5
+            e1 = [x / l1 for x in e1]
+            e2 = [n[1] * e1[2] - n[2] * e1[1], n[2] * e1[0] - n[0] * e1[2], n[0] * e1[1] - n[1] * e1[0]]
+            zc = round(sum(a[i] * n[i] for i in range(3)), 3)
+            out = []
+            for l in recs:
+                if l[:6] in ('ATOM  ', 'HETATM'):
+                    q = [float(l[30:38]), float(l[38:46]), float(l[46:54])]
+                    w = [round(sum(q[i] * e[i] for i in range(3)), 3) for e in (e1, e2, n)]
+                    if int(l[22:26]) == int(resnum) and l[12:16].strip() in names:
+                        w[2] = zc
+                    l = l[:30] + '%8.3f%8.3f%8.3f' % tuple(w) + l[54:]
+                out.append(l)
+            _TXT[name] = '\n'.join(out) + '\n'
         elif '%' in name:
             # 'name%HG': the zinc ion of the fixture replaced by another configured ion (atom name, residue name and element columns):
             # ions whose symbol starts like a lighter element (HG / H, CA / C, NA / N)
